@@ -141,6 +141,7 @@ COMBINATORS = {
     "option::Option::<T>::or_else": (OPTION, {"Some": ("keep", OPTION, "Some"), "None": ("call0",)}),
     "result::Result::<T, E>::or_else": (RESULT, {"Ok": ("keep", RESULT, "Ok"), "Err": ("call",)}),
     "bool::<impl bool>::then": ("bool", {"true": ("wrapcall0", OPTION, "Some"), "false": ("unit", OPTION, "None")}),
+    "bool::<impl bool>::then_some": ("bool", {"true": ("wrapval", OPTION, "Some"), "false": ("unit", OPTION, "None")}),
     "option::Option::<T>::map_or": (OPTION, {"Some": ("call",), "None": ("default",)}),
     "option::Option::<T>::map_or_else": (OPTION, {"Some": ("call",), "None": ("call0@1",)}),
     "result::Result::<T, E>::map_or_else": (RESULT, {"Ok": ("call",), "Err": ("call@1",)}),
@@ -217,7 +218,8 @@ def expand_combinators(prog, d):
         default_op = t["args"][1] if has_default else None
         if recv.get("k") not in ("copy", "move"):
             continue
-        fdef = _closure_def(blocks, fop)
+        eager = all(a[0] in ("wrapval", "unit", "keep", "payload") for a in COMBINATORS[key][1].values())
+        fdef = _closure_def(blocks, fop) if not eager else ("value", None)
         if fdef is None or (fdef[0] == "closure" and fdef[1] not in prog.fns):
             continue
         fdef1, fop1 = fdef, fop
@@ -307,6 +309,8 @@ def expand_combinators(prog, d):
                 call_f([{"k": "move", "place": pay}], lambda r: {"k": "use", "op": {"k": "move", "place": {"local": r, "proj": []}}}, direct=True, second=True)
             elif kind == "wrapcall0":
                 call_f([], lambda r, act=act: agg(act[1], act[2], [{"k": "move", "place": {"local": r, "proj": []}}]))
+            elif kind == "wrapval":
+                nb["stmts"].append({"place": dest, "rv": agg(act[1], act[2], [fop]), "line": line})
             elif kind == "keep":
                 nb["stmts"].append({"place": dest, "rv": agg(act[1], act[2], [{"k": "move", "place": pay}]), "line": line})
             elif kind == "payload":
@@ -323,7 +327,7 @@ def expand_combinators(prog, d):
             chain_blocks, cont_b, brk_b = chain
             for variant, act in acts.items():
                 cls = None
-                if act[0] in ("wrap", "keep", "wrapcall0") and act[2] in ("Ok", "Some"):
+                if act[0] in ("wrap", "keep", "wrapcall0", "wrapval") and act[2] in ("Ok", "Some"):
                     cls = "ok"
                 elif act[0] in ("keep", "unit", "wrap", "wrapcall0") and act[2] in ("Err", "None"):
                     cls = "err"
